@@ -265,6 +265,10 @@ def run_one(ck, prog):
         cfg = ctx.cfg
         rec = [bb for bb, t in cfg.calls(lambda t: t.get("callee") == ra["path"])]
         opens = [bb for bb, t in cfg.calls(lambda t: (t.get("callee") or "").endswith("Directory::open_at"))]
+        if not opens:
+            # the private helper written out: rusl's open_at relative to this directory with O_DIRECTORY-less read-only flags, wrapped
+            # into a Directory right away (the recursion then runs on that value)
+            opens = [bb for bb, t in cfg.calls(lambda t: (t.get("callee") or "").endswith("unistd::open::open_at")) if mentions(ctx.args(bb)[0], ctx.prov, lambda z: z[0] == "param" and z[1] == 1)]
         unl = [(bb, ctx.args(bb)) for bb, t in cfg.calls(lambda t: (t.get("callee") or "").endswith("unlink::unlink_at"))]
         ck.ob("C14.5", "shape", len(rec) == 1 and len(opens) == 1 and len(unl) == 2, fn=ra["path"], detail=f"recursion sites {len(rec)}, open_at {len(opens)}, unlink_at {len(unl)}")
         if len(rec) == 1 and len(opens) == 1 and len(unl) == 2:
